@@ -249,6 +249,9 @@ func sysRandomStims(rng *rand.Rand, cfg sys.Config, n int, w map[string]int) []s
 			if cfg.GateU && rng.Intn(8) == 0 {
 				op = "SendG"
 			}
+			if op == "Recv" && rng.Intn(4) == 0 {
+				op = "RecvRaw"
+			}
 			out = append(out, sys.Stim{K: "op", T: t, Op: op, R: 1 + rng.Intn(sys.MaxRPC)})
 		case "hstep":
 			out = append(out, sys.Stim{K: "hstep", A: []string{"recv", "recv", "send1", "send2", "closesend", "retnil", "reterr", "recv", "send1", "sendbad"}[rng.Intn(10)]})
